@@ -945,6 +945,53 @@ func runC14(c *Ctx) {
 			}
 		}
 	}
+	// Close() before the controller ever became ready (its first list is still
+	// held by the server, or it has not even started): a deliberate close like
+	// any other — done, Error() nil, never ready
+	for variant := 0; variant < 3; variant++ {
+		what := fmt.Sprintf("Close() before the first list has returned (variant %d: 0 at once, 1 with the list in flight, 2 with the list in flight and released right after)", variant)
+		c.Now(what)
+		var done, ready bool
+		var err error
+		dl := sched.Bubble(c.T, func() {
+			srv := fakeapi.New()
+			srv.Set(1, 1, labSets[1], 1)
+			release := srv.HoldLists()
+			ct := newCtlWith(srv, c.Seed+int64(variant), 0, 2*time.Second, nil)
+			if variant > 0 {
+				sched.Settle()
+			}
+			ct.c.Close()
+			if variant == 2 {
+				release()
+			}
+			sched.Settle()
+			if variant != 2 {
+				release()
+			}
+			sched.Settle()
+			done, ready, err = isClosed(ct.c.Done()), isClosed(ct.c.Ready()), ct.c.Error()
+			ct.cancel()
+			sched.Settle()
+		})
+		c.Rep.Evaluations++
+		replay := map[string]interface{}{"scenario": what, "done": done, "ready": ready, "error": fmt.Sprint(err)}
+		if dl != "" {
+			replay["deadlock"] = dl
+			c.Violation("", "hang (bubble deadlock): "+what, replay)
+			continue
+		}
+		if !done {
+			c.Violation("", "a controller closed before it was ready is not done: "+what, replay)
+		}
+		if err != nil {
+			c.Violation("", fmt.Sprintf("a controller closed deliberately before it was ready reports Error() = %v: %s", err, what), replay)
+		}
+		if ready && variant != 2 { // (in variant 2 the list may return before the close is seen)
+			c.Violation("", "Ready() closed on a controller that was closed before its first list returned: "+what, replay)
+		}
+		c.DistinctCase(fmt.Sprint("close-before-ready-", variant))
+	}
 	c.Rep.Rule = "whole controller (with a tree of a subscription, a clone with a filtered subscription, a for-filter clone and a monitor attached) against the fake API server in virtual time: every list failure kind {List error, context.Canceled as an error, Kubernetes Status errors 429 TooManyRequests / ServerTimeout / 504 Timeout / 404 NotFound / 403 Forbidden / 410 Gone, object that is not a list, list type without items, list of non-objects} injected at the k-th list (k=1..3/4) under {healthy watch, connect errors, stream closes}; and no list failure with every watch failure kind {connect errors, always failing, stream closes, status/bookmark/unknown frames} with triggers {none, Close, context cancel}. Observed: Ready, Done, Error (cause by identity), descendants' Done; compared with the extracted controller model (krun) on the same input sequence. Non-trivial = every scenario (each has a distinct expected outcome); distinct by scenario. Plus two controllers on ONE client.Client with both List calls in flight (held by the server), one of them closed / cancelled meanwhile, at the first list and at a relist: the other becomes (stays) ready, holds the server's content and goes on relisting. Every second fake server hands out an opaque collection resourceVersion (rv-<n>) and takes it back at Watch. The frames mode injects per round the skipped frames (status, bookmark, unknown type, expired / detailed status, an ERROR frame carrying an API object) and then ONE session-ending frame (non-object ADDED payload / ERROR with an undecodable payload / ERROR with no payload), a different one each round."
 	c.Rep.Stats["runs"] = runs
 	c.Sample(map[string]interface{}{"scenario": "list error at list 2", "expected": "Done closed, Error cause = injected error, ready stays true, subtree done"})
